@@ -32,6 +32,7 @@ def eff_box(A, W, per, dim):
     return lo, hi
 
 
+@isolated('cuboid')
 def cuboid_obligations(prefix):
     u, b, ctx, pre, A, W, per, dim = sym_cuboid()
     obs = []
@@ -123,6 +124,7 @@ def replay_right_loc(ob=None):
     return {"reproduced": bool(bad), "runs": bad[:2], "what": "HalfSpace::right_loc: neighbour position != generator + shift, or wall image != mirror image"}
 
 
+@isolated('right_loc')
 def right_loc_obligations(prefix):
     """HalfSpace::right_loc: neighbour position = generator (+ shift); for a wall, the mirror image of the left generator."""
     u, b, ctx, pre, A, W, per, dim = sym_cuboid()
